@@ -713,7 +713,7 @@ func (g *Gen) perturbHidden(v reflect.Value, tag string, changed *bool) reflect.
 			return out
 		}
 		m := reflect.MakeMap(v.Type())
-		for _, k := range v.MapKeys() {
+		for _, k := range sortedMapKeys(v) {
 			m.SetMapIndex(k, g.perturbHidden(v.MapIndex(k), tag, changed))
 		}
 		out.Set(m)
@@ -1055,7 +1055,7 @@ func keptPositions(text string, data interface{}) string {
 			}
 		}
 	case reflect.Map:
-		for _, k := range v.MapKeys() {
+		for _, k := range sortedMapKeys(v) {
 			r := safeEvaluate(ev, v.MapIndex(k).Interface())
 			if r != "T" && r != "F" {
 				return "E"
